@@ -594,9 +594,10 @@ or a list of these
 
     if estimate_key:
         warnings.warn("key estimation", stacklevel=2)
-        _, mode, fifths = analysis.estimate_key(note_array)
+        # estimate_key returns the name of the key
+        key_name = analysis.estimate_key(note_array)
         key_sigs_by_track = {}
-        global_key_sigs = [(0, fifths_mode_to_key_name(fifths, mode))]
+        global_key_sigs = [(0, key_name)]
 
     if assign_note_ids:
         note_ids = ["n{}".format(i) for i in range(len(note_array))]
@@ -606,7 +607,7 @@ or a list of these
     ## sanitize time signature, when they are only present in one track, and no global is set
     # find the number of ts per each track
     number_of_time_sig_per_track = [
-        len(time_sigs_by_track[t]) for t in key_sigs_by_track.keys()
+        len(time_sigs_by_track[t]) for t in time_sigs_by_track.keys()
     ]
     # if one track has 0 ts, and another has !=0 ts, and no global_time_sigs is present, sanitize
     # all key signatures are copied to global, and the track ts are removed
